@@ -109,6 +109,9 @@ pub fn do_compaction(opts: &Options) -> crate::Result<()> {
 
     log::debug!("Compaction choice: {choice:?} in {:?}", start.elapsed());
 
+    #[cfg(feature = "verif")]
+    crate::verif::report_choice(&choice);
+
     match choice {
         Choice::Merge(payload) => {
             merge_tables(compaction_state, version_history_lock, opts, &payload)
